@@ -37,7 +37,7 @@ def store_cfg(sub, memcap, compactn, comps, flags=None):
     open(os.path.join(sub, "StoreT_run.cfg"), "w").write(txt)
 
 
-def run_store(rep, work, d, exe, prop, tier, label, idx, n, memcap=1, compactn=2, comps="vtm", steps=24, density=0.5, images=0.0, damage=False, seed=0, vec="flat",
+def run_store(rep, work, d, exe, prop, tier, label, idx, n, memcap=1, compactn=2, comps="vtm", steps=24, density=0.5, images=0.0, damage=False, seed=0, vec="flat", bulk=0,
               allow=("C08-D3-compaction-drops-sources", "C08-D1m-shared-templates")):
     """Runs the store driver, validates the hook-level trace against Store.tla (conformance, exact result sets, explanation ghosts)
     and judges the client-level property monitors (StoreP).  Returns the list of trace events."""
@@ -48,6 +48,8 @@ def run_store(rep, work, d, exe, prop, tier, label, idx, n, memcap=1, compactn=2
             "-steps", steps, "-density", density, "-images", images, "-vec", vec]
     if damage:
         args.append("-damage")
+    if bulk:
+        args += ["-bulk", bulk]
     p = C.run_harness(exe, args, timeout=3000)
     if p.returncode != 0:
         raise C.Inconclusive("store driver failed (%s): %s" % (label, (p.stderr or p.stdout)[-1500:]))
